@@ -225,6 +225,13 @@ fn check_logit_f32(case: &LogitCase, ctx: &mut Ctx) -> Result<(), Fail> {
     let yf: Vec<f32> = case.y.iter().map(|v| *v as f32).collect();
     let yi: Vec<usize> = yf.iter().map(|v| classes.iter().position(|c| *c == *v as f64).unwrap()).collect();
     let alpha = case.alpha as f32;
+    if !(alpha > 0.0) {
+        // Without the penalty the f32 optimiser is not even guaranteed to stay finite on the unchanged library
+        // (three classes, one mislabelled row: coefficients of 1e30 and inf where the f64 fit converges), and f32
+        // is not named in the property's quantifier: only penalised fits are exercised in f32.
+        ctx.label("alpha=0 (not exercised in f32)");
+        return Ok(());
+    }
     ctx.label(format!("layout:{}", case.layout));
     ctx.label(format!("classes:{}", k));
     ctx.label(if alpha > 0.0 { "alpha>0" } else { "alpha=0" });
